@@ -71,6 +71,7 @@ class Ctx:
         self.assumptions = {}    # theorem -> list of axioms
         self.build_log = ''
         self.fingerprints = {}
+        self.coqchk = None
 
     @property
     def quick(self):
@@ -297,7 +298,24 @@ def build_props(ctx, props_rel, gen_funcs=()):
     problems = audit_sources()
     for pr in problems:
         ctx.violate('proof', 'audit:' + pr, 'source audit: ' + pr)
+    if not ctx.quick or os.environ.get('VERIF_COQCHK') == '1':
+        coqchk(ctx, props_rel)
     return not problems and len(ctx.discharged) == len(ctx.obligations)
+
+
+def coqchk(ctx, props_rel):
+    """thorough tier: re-check the property's .vo and everything it depends on with the independent checker and record
+    the axioms / unsafe features it reports (must be none)."""
+    mod = 'Verif.' + props_rel[:-2].replace('/', '.')
+    with coq_lock():
+        p = subprocess.run(['timeout', '1500', 'coqchk', '-silent', '-o', '-R', '.', 'Verif', mod], cwd=COQ, capture_output=True, text=True)
+    out = p.stdout + p.stderr
+    summary = out[out.find('CONTEXT SUMMARY'):] if 'CONTEXT SUMMARY' in out else out[-600:]
+    ctx.coqchk = ' '.join(summary.split())[:600]
+    clean = (p.returncode == 0 and re.search(r'Axioms: <none>', summary) and re.search(r'type-in-type: <none>', summary)
+             and re.search(r'unsafe \(co\)fixpoints: <none>', summary) and re.search(r'positivity is assumed: <none>', summary))
+    if not clean:
+        ctx.violate('proof', 'coqchk:' + mod, f'coqchk does not accept {mod} as axiom-free: rc={p.returncode} {ctx.coqchk}')
 
 
 HEADER = ('From Coq Require Import QArith Qabs Qminmax List ZArith Bool String Ascii.\n'
@@ -457,6 +475,7 @@ def write_evidence(ctx, meta, n_viol):
             'input_distribution': ctx.distribution,
             'modelled_not_verified': meta.get('modelled', []),
             'source_fingerprints': ctx.fingerprints,
+            'coqchk': ctx.coqchk or 'not run in this tier (thorough tier runs coqchk -o on the property file and its dependencies)',
             'notes': ctx.notes,
             'exhaustive': bool(meta.get('exhaustive', False)),
         },
